@@ -1,0 +1,79 @@
+//! Verification-only facade for `Behaviour` internals (compiled only with `--cfg libp2p_verif`).
+//! Plain-data views and the real wire encoding of queued RPCs; no logic of its own.
+
+use asynchronous_codec::Encoder;
+use bytes::BytesMut;
+
+use super::*;
+use crate::{handler::HandlerEvent, protocol::GossipsubCodec, types::PeerKind};
+
+impl<D, F> Behaviour<D, F>
+where
+    D: DataTransform + Send + 'static,
+    F: TopicSubscriptionFilter + Send + 'static,
+{
+    /// Pop every RPC queued for `peer`'s connection handlers and encode each one with the real
+    /// wire codec (length prefix + protobuf), exactly as the handler would write it.
+    pub fn verif_drain_rpcs(&mut self, peer: &PeerId) -> Vec<Vec<u8>> {
+        let mut out = Vec::new();
+        let Some(details) = self.connected_peers.get_mut(peer) else {
+            return out;
+        };
+        let mut codec = GossipsubCodec::new(
+            usize::MAX / 4,
+            crate::ValidationMode::None,
+            Default::default(),
+            usize::MAX / 4,
+            usize::MAX / 4,
+        );
+        let waker = futures::task::noop_waker();
+        let mut cx = std::task::Context::from_waker(&waker);
+        while let std::task::Poll::Ready(rpc) = details.messages.poll_pop(&mut cx) {
+            let mut buf = BytesMut::new();
+            codec
+                .encode(rpc.into_protobuf(), &mut buf)
+                .expect("encoding into memory");
+            out.push(buf.to_vec());
+        }
+        out
+    }
+
+    /// Is nothing queued for `peer`?
+    pub fn verif_queue_is_empty(&self, peer: &PeerId) -> bool {
+        self.connected_peers
+            .get(peer)
+            .map(|d| d.messages.is_empty())
+            .unwrap_or(true)
+    }
+
+    /// The fanout set of `topic` (peers we publish to without being subscribed).
+    pub fn verif_fanout_peers(&self, topic: &TopicHash) -> Vec<PeerId> {
+        self.fanout
+            .get(topic)
+            .map(|s| s.iter().copied().collect())
+            .unwrap_or_default()
+    }
+
+    /// Is `peer` currently backed off for `topic` (including the slack)?
+    pub fn verif_is_backed_off(&self, topic: &TopicHash, peer: &PeerId) -> bool {
+        self.backoffs.is_backoff_with_slack(topic, peer)
+    }
+
+    /// The explicit peers.
+    pub fn verif_explicit_peers(&self) -> Vec<PeerId> {
+        self.explicit_peers.iter().copied().collect()
+    }
+}
+
+/// The handler event by which a connection handler reports the negotiated protocol of its peer.
+/// 0 = not supported, 1 = floodsub, 2 = gossipsub 1.0, 3 = 1.1, 4 = 1.2, anything else = 1.3.
+pub fn peer_kind_event(kind: u8) -> HandlerEvent {
+    HandlerEvent::PeerKind(match kind {
+        0 => PeerKind::NotSupported,
+        1 => PeerKind::Floodsub,
+        2 => PeerKind::Gossipsub,
+        3 => PeerKind::Gossipsubv1_1,
+        4 => PeerKind::Gossipsubv1_2,
+        _ => PeerKind::Gossipsubv1_3,
+    })
+}
